@@ -1,3 +1,4 @@
+import Secp.Proofs.DriversSchnorr
 import Secp.Proofs.Schnorr
 import Secp.Props.C03
 import Secp.Proofs.Slices
@@ -82,5 +83,33 @@ theorem schnorrParse_regenerated (b : Bytes) :
 theorem schnorrSerialize_regenerated (r s : Nat) :
     Secp.Gen.BytesBuild.schnorrSerialize r s = schnorrSerialize r s :=
   Secp.Proofs.BytesBuild.schnorrSerialize_gen_eq_model r s
+
+/-! ### Regenerated drivers (tools/gotr pass T8)
+
+`Secp.Gen.Drivers` is REGENERATED from /repo on every check run: the Go functions below translated
+statement by statement into Lean terms over the value-level primitives.  The theorems say the
+regenerated definitions EQUAL the hand-written models the theorems above are about, so a change to
+one of these functions either leaves the equality provable (then the property theorems still speak
+about the code) or breaks this file.  `DR` = ok | err | panic | fuel (retry loop out of fuel) |
+undef (an arithmetic assumption of the translation failed; shown never to occur). -/
+
+/-- `schnorrSign` (schnorr/signature.go) regenerated = `schnorrSignM` for 32-byte hashes -/
+theorem schnorrSign_regenerated (B : Bytes → Bytes) (d k : Nat) (h : Bytes) (hl : h.length = 32) :
+    Secp.Gen.Drivers.schnorrSign B d k h =
+      (match schnorrSignM B d k h with | .ok x => DR.ok x | .error e => DR.err e) :=
+  Secp.Proofs.DriversSchnorr.schnorrSign_regenerated B d k h hl
+
+/-- `schnorrVerify` regenerated = `schnorrVerifyM` for every input -/
+theorem schnorrVerify_regenerated (B : Bytes → Bytes) (r s : Nat) (h : Bytes) (Q : Nat × Nat) :
+    Secp.Gen.Drivers.schnorrVerify B (r, s) h Q =
+      (match schnorrVerifyM B r s h Q with | none => DR.ok () | some e => DR.err e) :=
+  Secp.Proofs.DriversSchnorr.schnorrVerify_regenerated B r s h Q
+
+/-- the exported `Sign` (length and zero-key checks, retry loop with the scheme tag) regenerated -/
+theorem schnorrSignRFC6979_regenerated (B : Bytes → Bytes) (d : Nat) (h : Bytes) :
+    Secp.Gen.Drivers.schnorrSignRFC6979 B d h =
+      (match Secp.Model.schnorrSign B d h with
+        | .ok x => DR.ok x | .error .NoNonce => DR.fuel | .error e => DR.err e) :=
+  Secp.Proofs.DriversSchnorr.schnorrSignRFC6979_regenerated B d h
 
 end Secp.Props.C11
